@@ -24,6 +24,7 @@ Step ==
     \/ op = "FsCat" /\ FsCat(A(1))
     \/ op = "FsFind" /\ FsFind(A(1))
     \/ op = "HashDiff" /\ HashDiff
+    \/ op = "HashDiffChanged" /\ HashDiffChanged
 Match == Have /\ Step /\ loaded' = ToSet(Ev.loaded) /\ l' = l + 1 /\ UNCHANGED tid
 Say(tag, clause) == PrintT(<<tag, "C17", clause, tid, l, {}>>)
 Fail == /\ Have /\ ~ENABLED Match
@@ -41,6 +42,7 @@ Judge ==
     /\ (op = "FsCat" => (Ev.content_ok \/ Say("VERDICT", "AdaptorBytesDifferFromStorage")))
     /\ (op \in {"Ls", "FsLs"} => (KeysOf(Ev.lazy) = RefLs(A(1)) \/ Say("VERDICT", "ListingWrong:" \o op)))
     /\ (op = "Iter" => (KeysOf(Ev.lazy) = (IF A(2) THEN RefIterShallow(A(1)) ELSE RefIter(A(1))) \/ Say("VERDICT", "IterationWrong")))
+    /\ (op = "HashDiffChanged" => (KeysOf(Ev.lazy) = Changed \/ Say("VERDICT", "HashDiffWrong")))
     /\ (loaded \subseteq ToSet(Ev.loaded) \/ Say("VERDICT", "LoadedShrank"))
 TraceNext == (Match \/ Fail) /\ Judge
 TraceSpec == TraceInit /\ [][TraceNext]_allvars
